@@ -6,6 +6,7 @@ from .. import cfg as cfgmod
 from ..fde import FDE, Obj, Opaque
 from ..report import AnalysisError
 from ..srcmodel import unparse, norm, walk_no_nested, calls_in, fold_const
+from . import mergetrace as mt
 from .common import (cfg_of, node_obj, is_method_call, F3, PRIOS, product_dicts, fde_guard, facts_at,
                      find_stmt_node, get_kw, recv_of, name_defs)
 
@@ -76,37 +77,20 @@ def leaf_winner_table(repo, run, rule):
         run.ok(rule, fi, 'leaf merge winner table (%d rows)' % rows, 'older survives iff strictly higher priority; newer wins ties')
 
 
-def composed_tail(repo):
-    """the final priority decision of ComposedNode.ayns.on_merge_impl (last top-level If calling _replace_*)"""
-    fi = repo.func('ComposedNode.ayns.on_merge_impl')
-    cand = [s for s in fi.node.body if isinstance(s, ast.If) and '_replace_self' in unparse(s) and '_replace_other' in unparse(s)]
-    if not cand:
-        raise AnalysisError('ComposedNode.ayns.on_merge_impl: final _replace_self/_replace_other decision not found')
-    return fi, cand[-1]
-
-
 def composed_winner_table(repo, run, rule):
-    fi, stmt = composed_tail(repo)
-    bad = []
-    rows = 0
-    for a in PRIOS:
-        for b in PRIOS:
-            me, ot = node_obj('self', 'ComposedNode', _priority=a), node_obj('other', 'ComposedNode', _priority=b)
-            f = FDE(repo, stubs={'_replace_self', '_replace_other'})
-            f.effects = []
-            fde_guard(lambda: f._run([stmt], {'self': me, 'other': ot, 'path': 'p'}, fi))
-            rows += 1
-            calls = [e for e in f.effects if e[0] == 'call']
-            exp = '_replace_self' if P(b) >= P(a) else '_replace_other'
-            if len(calls) != 1 or calls[0][1] != exp or getattr(calls[0][2], 'name', None) != 'self' or getattr(calls[0][3][0], 'name', None) != 'other':
-                bad.append((a, b, [(c[1], getattr(c[2], 'name', None)) for c in calls], exp))
-    run.table(rule, rows, 'container merge tail: which of self._replace_self/_replace_other(other) runs')
-    if bad:
-        a, b, calls, exp = bad[0]
-        run.violation(rule, fi, 'container merge: final _replace_self/_replace_other decision',
-                      'older priority %r, newer %r: calls %s, expected self.%s(other)' % (a, b, calls, exp), node=stmt, witness=bad[:6])
-    else:
-        run.ok(rule, (fi.file, stmt.lineno, fi.qualname), 'container merge tail table (%d rows)' % rows, 'self adopts other iff p(other) >= p(self)')
+    mt.tail_decision(repo, run, rule)
+
+
+def key_loop_paths(repo, run, rule, rule_new=None):
+    mt.key_loop(repo, run, rule, rule_new)
+
+
+def removal_guards(repo, run, rule):
+    mt.removal_guards(repo, run, rule)
+
+
+def strictness(repo, run, rule):
+    mt.strictness(repo, run, rule)
 
 
 def function_node_priority_calls(repo, run, rule):
@@ -248,251 +232,7 @@ def node_local_kwargs(repo, run, rule, inherit_names):
 
 # ---------------------------------------------------------------------------------------------------
 def flatten_fold(repo, run, rule):
-    """C02.R1 left fold over all stages in Builder.flatten"""
-    fi = repo.func('Builder.flatten')
-    loops = [s for s in fi.node.body if isinstance(s, (ast.For, ast.While))]
-    fold = None
-    for lp in loops:
-        if isinstance(lp, ast.For) and any(is_method_call(c, member='merge', ayns=True) for c in calls_in(lp)):
-            fold = lp
-    if fold is None:
-        raise AnalysisError('Builder.flatten: fold loop (for ... acc = acc.ayns.merge(stage)) not recognised')
-    body = [s for s in fold.body if not (isinstance(s, ast.Expr) and isinstance(s.value, ast.Constant))]
-    if len(body) != 1 or not isinstance(body[0], ast.Assign) or not isinstance(body[0].value, ast.Call):
-        raise AnalysisError('Builder.flatten: fold body is not a single assignment `acc = acc.ayns.merge(x)`')
-    asg = body[0]
-    call = asg.value
-    acc = asg.targets[0].id if isinstance(asg.targets[0], ast.Name) else None
-    recv = unparse(recv_of(call)) if is_method_call(call, member='merge', ayns=True) else None
-    arg = call.args[0] if call.args else None
-    problems = []
-    if acc is None or recv != acc:
-        problems.append('the accumulator is not the receiver of merge (%s = %s)' % (unparse(asg.targets[0]), unparse(call)))
-    # iteration space
-    it = fold.iter
-    tgt = unparse(fold.target)
-    stages = 'self.stages'
-    elem_ok = False
-    if isinstance(it, ast.Call) and unparse(it.func) == 'range':
-        a = [unparse(x) for x in it.args]
-        if a == ['1', 'len(%s)' % stages]:
-            elem_ok = arg is not None and norm(arg) == '%s[%s]' % (stages, tgt)
-            if not elem_ok:
-                problems.append('merged element is %s, not %s[%s]' % (unparse(arg), stages, tgt))
-        else:
-            problems.append('fold visits range(%s) instead of range(1, len(self.stages))' % ', '.join(a))
-    elif norm(it) == stages + '[1:]':
-        elem_ok = arg is not None and norm(arg) == tgt
-        if not elem_ok:
-            problems.append('merged element is %s, not the loop variable' % unparse(arg))
-    else:
-        if any(k in norm(it) for k in ('reversed', 'sorted', '[::-1]', '[2:]', '[:-1]')):
-            problems.append('fold iterates %s (not every later stage in order)' % norm(it))
-        else:
-            raise AnalysisError('Builder.flatten: iteration space %s not recognised' % norm(it))
-    # accumulator initialised from stages[0] before the loop
-    init = [d for d in name_defs(fi, acc or '')] if acc else []
-    init0 = [d for d in init if d[0] == 'assign' and d[2].lineno < fold.lineno]
-    if not init0 or norm(init0[-1][1]) != stages + '[0]':
-        problems.append('accumulator is not initialised with self.stages[0] (%s)' % (norm(init0[-1][1]) if init0 else 'no initialisation'))
-    # result replaces stages
-    after = [s for s in fi.node.body if s.lineno > fold.lineno]
-    if not any(isinstance(s, ast.Assign) and norm(s.targets[0]) == stages and norm(s.value) == '[%s]' % acc for s in after):
-        problems.append('the folded result does not replace self.stages')
-    if problems:
-        run.violation(rule, fi, 'fold over stages: ' + norm(fold)[:200], '; '.join(problems), node=fold)
-    else:
-        run.ok(rule, (fi.file, fold.lineno, fi.qualname), norm(fold)[:160], 'left fold: acc=stages[0]; acc=acc.merge(stage_i) for i=1..n-1; stages=[acc]')
-    # merge(): premerge then on_merge with an empty path
-    mg = repo.func('ConfigNode.ayns.merge')
-    src = [norm(s) for s in mg.node.body]
-    if not any(s == 'other.ayns.premerge(self)' for s in src) or not any(s == 'return self.ayns.on_merge(NodePath(), other)' for s in src):
-        raise AnalysisError('ConfigNode.ayns.merge: shape `other.ayns.premerge(self); return self.ayns.on_merge(NodePath(), other)` not recognised')
-    run.ok(rule, mg, 'merge(other): other.premerge(self) then self.on_merge(NodePath(), other)')
-
-
-def _key_loop(repo):
-    fi = repo.func('ComposedNode.ayns.on_merge_impl')
-    loops = [s for s in fi.node.body if isinstance(s, ast.For) and 'on_merge' in unparse(s)]
-    if len(loops) != 1:
-        raise AnalysisError('ComposedNode.ayns.on_merge_impl: key loop not recognised (%d candidates)' % len(loops))
-    return fi, loops[0]
-
-
-def key_loop_paths(repo, run, rule, rule_new=None):
-    """C02.R2 / C08.R1: every key of the newer mapping lands; attachments are preceded by the new-path check"""
-    fi, loop = _key_loop(repo)
-    it = norm(loop.iter)
-    if it not in ('other._children.items()', 'other.ayns.named_children()'):
-        if any(k in it for k in ('reversed', 'sorted', '[', 'filter', ' if ')):
-            run.violation(rule, fi, 'for ... in ' + it, 'the key loop does not visit every child of the newer mapping in order', node=loop)
-        else:
-            raise AnalysisError('key loop iterates %s (not recognised)' % it)
-    if not (isinstance(loop.target, ast.Tuple) and len(loop.target.elts) == 2):
-        raise AnalysisError('key loop target not (key, value)')
-    key, value = [e.id for e in loop.target.elts]
-    wrapper = ast.FunctionDef(name='_body', args=ast.arguments(posonlyargs=[], args=[], kwonlyargs=[], kw_defaults=[], defaults=[]),
-                              body=loop.body, decorator_list=[], lineno=loop.lineno, col_offset=0)
-    g = cfgmod.build(wrapper)
-    paths = cfgmod.enumerate_paths(g, follow_exc=False)
-    n = 0
-    for p in paths:
-        if p[-1][0] is not g.exit:
-            continue
-        n += 1
-        facts = set()
-        actions = []
-        checked = set()     # names on which _require_all_new(path + [key]) was called
-        merged_from = {}    # name -> receiver of on_merge
-        for node, label in p:
-            if node.kind == 'test' and label in ('true', 'false'):
-                facts |= cfgmod.cond_facts(node.ast, label == 'true')
-            for c in node.calls():
-                if is_method_call(c, member='_require_all_new', ayns=True):
-                    r = unparse(recv_of(c))
-                    if c.args and norm(c.args[0]) == 'path + [%s]' % key:
-                        checked.add((r, unparse(get_kw(c, 'include_self')) if get_kw(c, 'include_self') is not None else 'True'))
-                if is_method_call(c, recv='self', member='set_child', ayns=True):
-                    actions.append(('set', norm(c.args[0]), norm(c.args[1]), c))
-                if is_method_call(c, recv='self', member='remove_child', ayns=True):
-                    actions.append(('remove', norm(c.args[0]), None, c))
-            if node.kind == 'stmt' and isinstance(node.ast, ast.Assign) and isinstance(node.ast.value, ast.Call) and \
-                    is_method_call(node.ast.value, member='on_merge', ayns=True) and isinstance(node.ast.targets[0], ast.Name):
-                mc = node.ast.value
-                merged_from[node.ast.targets[0].id] = (unparse(recv_of(mc)), norm(mc.args[0]) if mc.args else None, norm(mc.args[1]) if len(mc.args) > 1 else None)
-        desc = 'path[%s]' % ' & '.join('%s%s' % ('' if pol else 'not ', t) for t, pol in sorted(facts))[:200]
-        child_name = None
-        for d in name_defs(fi, 'child'):
-            child_name = 'child'
-        # classify
-        if len(actions) > 1:
-            run.violation(rule, fi, desc, 'more than one mutation of the older mapping for one key: %s' % [a[:3] for a in actions], node=actions[0][3])
-            continue
-        if not actions:
-            kept = [m for m in merged_from if ('%s is %s' % (m, merged_from[m][0]), True) in facts or ('%s is %s' % (merged_from[m][0], m), True) in facts]
-            if kept:
-                run.ok(rule, (fi.file, loop.lineno, fi.qualname), desc, 'in-place merge result kept (%s is the existing child)' % kept[0])
-            else:
-                run.violation(rule, fi, desc, 'a key of the newer mapping is neither attached, merged in place nor removed on this path', node=loop)
-            continue
-        kind, k, v, call = actions[0]
-        if k != key:
-            run.violation(rule, fi, desc, '%s_child is applied to %s, not to the loop key %s' % (kind, k, key), node=call)
-            continue
-        if kind == 'remove':
-            okd = any(t.endswith('.ayns.explicit_delete') and pol for t, pol in facts)
-            if okd:
-                run.ok(rule, (fi.file, call.lineno, fi.qualname), desc, 'removal only under an explicit delete flag')
-            else:
-                run.violation(rule, fi, desc, 'a key of the older mapping is removed on a path without an explicit delete flag of the newer node', node=call)
-            continue
-        # set
-        if v == value and ('child is None', True) in facts:
-            src = 'newer value attached under a new key'
-            if rule_new:
-                if (value, 'True') in checked:
-                    run.ok(rule_new, (fi.file, call.lineno, fi.qualname), 'set_child(%s, %s) [new key]' % (key, value), '%s.ayns._require_all_new(path + [%s]) precedes' % (value, key))
-                else:
-                    run.violation(rule_new, fi, 'set_child(%s, %s) [new key]' % (key, value), 'newer content is attached under a key that did not exist without the new-path check on it', node=call)
-            run.ok(rule, (fi.file, call.lineno, fi.qualname), desc, src)
-        elif v in merged_from and merged_from[v][1] == 'path + [%s]' % key and merged_from[v][2] == value:
-            run.ok(rule, (fi.file, call.lineno, fi.qualname), desc, 'merge result of child.on_merge(path+[key], value) attached')
-            if rule_new:
-                composed = ('isinstance(child, ComposedNode)', True) in facts or ('merge', True) in facts
-                if composed:
-                    run.ok(rule_new, (fi.file, call.lineno, fi.qualname), 'set_child(%s, %s) [container merged recursively]' % (key, v), 'recursion checks its own attachments')
-                elif any(r == v for r, inc in checked):
-                    run.ok(rule_new, (fi.file, call.lineno, fi.qualname), 'set_child(%s, %s) [leaf replaced]' % (key, v), '%s.ayns._require_all_new(path + [%s], include_self=False) precedes' % (v, key))
-                else:
-                    run.violation(rule_new, fi, 'set_child(%s, %s) [leaf replaced]' % (key, v), 'a replaced leaf brings new content without the new-path check below it', node=call)
-        else:
-            run.violation(rule, fi, desc, 'set_child(%s, %s): attached value is neither the newer value (new key) nor the result of merging the existing child with it' % (k, v), node=call)
-    if n < 5:
-        raise AnalysisError('key loop: only %d normal paths enumerated (expected >= 5)' % n)
-    # recursion passes path + [key]
-    for c in calls_in(loop):
-        if is_method_call(c, member='on_merge', ayns=True):
-            if not c.args or norm(c.args[0]) != 'path + [%s]' % key or norm(c.args[1]) != value or unparse(recv_of(c)) != 'child':
-                run.violation(rule, fi, unparse(c), 'recursive merge must be child.on_merge(path + [key], value)', node=c)
-
-
-def removal_guards(repo, run, rule):
-    """C02.R3 / C04.R4: nothing is removed from the older tree without a delete flag"""
-    fi = repo.func('ComposedNode.ayns.on_merge_impl')
-    g = cfg_of(fi)
-    n = 0
-    for node in g.stmt_nodes():
-        for c in node.calls():
-            if is_method_call(c, recv='self', member=('remove_child', 'filter_nodes', 'clear', 'remove_node'), ayns=True) or \
-                    is_method_call(c, recv='self', member=('clear', 'pop', 'popitem'), ayns=False) or \
-                    (is_method_call(c, member=('clear', 'pop')) and unparse(recv_of(c)) == 'self._children'):
-                n += 1
-                facts = facts_at(g, node)
-                ok = any((t == 'other.ayns.delete' and pol) or (t.endswith('.ayns.explicit_delete') and pol) for t, pol in facts)
-                if ok:
-                    run.ok(rule, (fi.file, c.lineno, fi.qualname), unparse(c)[:100], 'control-dependent on a delete flag of the newer node')
-                else:
-                    run.violation(rule, fi, unparse(c), 'removal from the older tree that is not control-dependent on other.ayns.delete / explicit_delete (facts: %s)' % sorted(facts)[:4], node=c)
-    if n < 3:
-        raise AnalysisError('removal guards: expected >= 3 removal sites in ComposedNode.on_merge_impl, found %d' % n)
-    # list pre-filter: filters the *newer* tree, keeps every non-deleting node
-    li = repo.func('ConfigList.ayns.on_merge_impl')
-    cb = li.nested().get('keep_if_exists')
-    filt = [c for c in calls_in(li.node) if is_method_call(c, member='filter_nodes', ayns=True)]
-    if cb is None or len(filt) != 1:
-        raise AnalysisError('ConfigList.on_merge_impl: pre-filter keep_if_exists / filter_nodes call not recognised')
-    c = filt[0]
-    if unparse(recv_of(c)) == 'self':
-        run.violation(rule, li, unparse(c), 'the list pre-filter prunes the older list', node=c)
-    first = cb.node.body[0]
-    okf = isinstance(first, ast.If) and norm(first.test) == 'not node.ayns.delete' and len(first.body) == 1 and norm(first.body[0]) == 'return True'
-    if okf:
-        run.ok(rule, cb, 'keep_if_exists: `if not node.ayns.delete: return True` first', 'non-deleting nodes of the newer list are always kept')
-    else:
-        run.violation(rule, cb, norm(first)[:120], 'the pre-filter callback may drop non-deleting nodes (it must return True for them first thing)', node=first)
-
-
-def strictness(repo, run, rule):
-    """C04.R3: protecting comparison is strict; replacement comparisons let the newer node win ties"""
-    fi = repo.func('ComposedNode.ayns.on_merge_impl')
-    mk = fi.nested().get('maybe_keep')
-    if mk is None:
-        raise AnalysisError('maybe_keep callback not found')
-    rets = [s for s in walk_no_nested(mk.node) if isinstance(s, ast.Return)]
-    if len(rets) != 1 or not isinstance(rets[0].value, ast.Call) or not is_method_call(rets[0].value, member='has_priority_over', ayns=True):
-        raise AnalysisError('maybe_keep does not end in `return node.ayns.has_priority_over(other_node)`')
-    c = rets[0].value
-    ie = get_kw(c, 'if_equal')
-    strict = (ie is None and len(c.args) == 1) or (isinstance(ie, ast.Constant) and ie.value is False)
-    params = mk.params()
-    if unparse(recv_of(c)) != params[1]:
-        run.violation(rule, mk, unparse(c), 'the protecting comparison must ask whether the *older* node outranks the newer one', node=c)
-    elif not strict:
-        run.violation(rule, mk, unparse(c), 'an older entry survives a deleting node on *equal* priority (comparison must be strict)', node=c)
-    else:
-        run.ok(rule, (mk.file, c.lineno, mk.qualname), unparse(c), 'older entry kept only on strictly higher priority')
-    # wholesale replacement test and list pre-filter use if_equal=True for the newer node
-    sites = []
-    for s in walk_no_nested(fi.node):
-        if isinstance(s, ast.If) and 'not self._children' in norm(s.test):
-            for c2 in calls_in(s.test):
-                if is_method_call(c2, member='has_priority_over', ayns=True):
-                    sites.append((fi, c2, 'other', 'self'))
-    li = repo.func('ConfigList.ayns.on_merge_impl')
-    cb = li.nested().get('keep_if_exists')
-    if cb is not None:
-        for c2 in calls_in(cb.node):
-            if is_method_call(c2, member='has_priority_over', ayns=True):
-                sites.append((cb, c2, cb.params()[1], None))
-    if len(sites) < 2:
-        raise AnalysisError('replacement comparisons not found (got %d)' % len(sites))
-    for f2, c2, recv, arg in sites:
-        ie = get_kw(c2, 'if_equal')
-        ok = unparse(recv_of(c2)) == recv and isinstance(ie, ast.Constant) and ie.value is True
-        if ok:
-            run.ok(rule, (f2.file, c2.lineno, f2.qualname), unparse(c2), 'newer node replaces on equal priority')
-        else:
-            run.violation(rule, f2, unparse(c2), 'replacement by the newer node must win ties (newer over older, if_equal=True)', node=c2)
+    mt.flatten_fold(repo, run, rule)
 
 
 def delete_resolution(repo, run, rule):
@@ -523,22 +263,28 @@ def delete_resolution(repo, run, rule):
 
 
 def child_kwargs_keys(repo, run, rule):
-    """what a container hands to a child it adopts (set_child, reconstruction): the implicit_* channel only"""
+    """what a container hands to a child it adopts (set_child, reconstruction): the implicit_* channel only
+    (evaluated: the keys of the returned mapping over all flag valuations of the container)"""
     gk = repo.func('ComposedNode._get_child_kwargs')
     keys = set()
-    for s in ast.walk(gk.node):
-        if isinstance(s, ast.Assign) and isinstance(s.targets[0], ast.Subscript) and norm(s.targets[0].value) == 'ret' and isinstance(s.targets[0].slice, ast.Constant):
-            keys.add(s.targets[0].slice.value)
-        if isinstance(s, ast.Dict) and s.keys:
-            keys |= {k.value for k in s.keys if isinstance(k, ast.Constant)}
+    always = None
+    for v in product_dicts(_delete=F3, _allow_new=F3, _safe=F3, _priority=[None, 1]):
+        parent = node_obj('parent', 'ComposedNode', **v)
+        f = FDE(repo)
+        r = fde_guard(lambda: f.call(gk, parent))
+        if not isinstance(r.ret, dict):
+            raise AnalysisError('_get_child_kwargs does not return a mapping')
+        ks = set(r.ret.keys())
+        keys |= ks
+        always = ks if always is None else (always & ks)
     want = {'implicit_delete', 'implicit_allow_new', 'implicit_safe'}
     extra = keys - want
     if extra:
-        run.violation(rule, gk, '_get_child_kwargs keys %s' % sorted(keys), 'adopted / re-attached children are given %s by the container: every set_child during a merge (and reconstruction by copy/pickle) overwrites state that belongs to the child' % sorted(extra))
-    elif keys != want:
-        run.violation(rule, gk, '_get_child_kwargs keys %s' % sorted(keys), 'implicit flags %s are no longer handed to adopted children' % sorted(want - keys))
+        run.violation(rule, gk, '_get_child_kwargs returns keys %s' % sorted(keys), 'adopted / re-attached children are given %s by the container: every set_child during a merge (and reconstruction by copy/pickle) overwrites state that belongs to the child' % sorted(extra))
+    elif always != want:
+        run.violation(rule, gk, '_get_child_kwargs returns keys %s' % sorted(always or ()), 'implicit flags %s are not always handed to a newly adopted child' % sorted(want - (always or set())))
     else:
-        run.ok(rule, gk, '_get_child_kwargs hands out exactly implicit_delete / implicit_allow_new / implicit_safe')
+        run.ok(rule, gk, '_get_child_kwargs hands out exactly implicit_delete / implicit_allow_new / implicit_safe (54 valuations)')
 
 
 def propagation_table(repo, run, rule, flag):
